@@ -141,6 +141,9 @@ func (m *Model) runCheck(prop, tier string, keep bool, timeout int) int {
 	if prop == "C10" {
 		allObls = append(allObls, m.structuralC10()...)
 	}
+	if prop == "C20" {
+		allObls = append(allObls, m.structuralC20()...)
+	}
 	if prop == "C11" || prop == "C01" {
 		allObls = append(allObls, m.structuralErrorsUsed(prop)...)
 	}
@@ -824,4 +827,60 @@ func (m *Model) structuralErrorsUsed(prop string) []*Obl {
 	}
 	return []*Obl{{Name: "package lang#structural:no-error-result-is-discarded", Kind: "structural", Props: []string{prop}, Status: st, Solver: "govc (SSA scan)", Output: strings.Join(dropped, "\n"), Func: "package lang",
 		Src: "no call in package lang discards an error result, except output errors of the writer, strings.Builder writes, the ';' consumed by atStatementEnd, the element copies of sort and the root frame push"}}
+}
+
+// structuralC20: the three nesting counters are written only by the functions that count with them, so
+// no other code can reset or skip a count (the bounds themselves are proved as invariants: evOK, parserOK,
+// wfFrame).
+func (m *Model) structuralC20() []*Obl {
+	writers := map[string]map[string]bool{
+		"Evaluator.evalDepth": {"Evaluator.evalExpr": true, "Evaluator.evalExpr$1": true, "Evaluator.evalStatement": true, "Evaluator.evalStatement$1": true},
+		"Parser.depth":        {"Parser.expressionWithPrec": true, "Parser.expressionWithPrec$1": true, "Parser.statement": true, "Parser.statement$1": true},
+		"stackFrame.depth":    {"Evaluator.pushFrame": true},
+	}
+	var bad []string
+	for _, name := range sortedKeys(m.funcs) {
+		f := m.funcs[name]
+		pkg := f.Pkg
+		for p := f.Parent(); pkg == nil && p != nil; p = p.Parent() {
+			pkg = p.Pkg
+		}
+		if pkg == nil || pkg.Pkg.Name() != "lang" {
+			continue
+		}
+		for _, b := range f.Blocks {
+			for _, ins := range b.Instrs {
+				st, ok := ins.(*ssa.Store)
+				if !ok {
+					continue
+				}
+				fa, ok := st.Addr.(*ssa.FieldAddr)
+				if !ok {
+					continue
+				}
+				pt, ok := fa.X.Type().Underlying().(*types.Pointer)
+				if !ok {
+					continue
+				}
+				nt, ok := pt.Elem().(*types.Named)
+				if !ok {
+					continue
+				}
+				stt, ok := nt.Underlying().(*types.Struct)
+				if !ok {
+					continue
+				}
+				key := nt.Obj().Name() + "." + stt.Field(fa.Field).Name()
+				if w, tracked := writers[key]; tracked && !w[name] {
+					bad = append(bad, fmt.Sprintf("%s writes %s (%s)", name, key, m.fset.Position(st.Pos())))
+				}
+			}
+		}
+	}
+	status := "unsat"
+	if len(bad) > 0 {
+		status = "failed"
+	}
+	return []*Obl{{Name: "package lang#structural:nesting-counters-written-only-by-their-counting-functions", Kind: "structural", Props: []string{"C20"}, Status: status, Solver: "govc (SSA scan)", Output: strings.Join(bad, "\n"), Func: "package lang",
+		Src: "Evaluator.evalDepth is stored only by evalExpr/evalStatement, Parser.depth only by expressionWithPrec/statement, stackFrame.depth only by pushFrame"}}
 }
